@@ -123,7 +123,8 @@ func (w *World) genTxs(parent *TNode, maxTx int, pBad int) (txs []*transaction.T
 					"tamper-after-sign", "early-unstake", "foreign-fund", "dup-delegate", "wrong-prev-delegate",
 					"delegate-id-0", "delegate-id-1", "outputs-33", "outputs-0", "overflow-outputs", "stake-below-min",
 					"stake-wrong-delegate", "stake-wrong-prevunlock", "unstake-too-much", "unstake-fee-gt-amount",
-					"set-delegate-missing", "set-delegate-with-funds", "name-too-long", "version-0", "version-6-as-1"}[w.rng.Intn(29)]
+					"set-delegate-missing", "set-delegate-with-funds", "name-too-long", "version-0", "version-6-as-1",
+					"overflow-outputs-mid", "overflow-outputs-small-total"}[w.rng.Intn(31)]
 				if w.forceCorrupt != "" {
 					corrupt = w.forceCorrupt
 				}
@@ -292,6 +293,24 @@ func (w *World) genTxs(parent *TNode, maxTx int, pBad int) (txs []*transaction.T
 					}
 					outs[0].Amount = ^uint64(0) - 5
 					outs[1].Amount = 10
+				}
+				if corrupt == "overflow-outputs-mid" {
+					// the running sum wraps before the last output: 2^63 + 2^63 + small amounts (the wrapped total is affordable)
+					for len(outs) < 3 {
+						outs = append(outs, outs[0])
+					}
+					outs[0].Amount = 1 << 63
+					outs[1].Amount = 1 << 63
+					for k := 2; k < len(outs); k++ {
+						outs[k].Amount = 1 + w.rng.UpTo(1000)
+					}
+				}
+				if corrupt == "overflow-outputs-small-total" {
+					// two outputs whose sum wraps, in the last addition, to a small affordable total (far below the maximum supply)
+					outs = outs[:1]
+					outs = append(outs, outs[0])
+					outs[0].Amount = 1 << 63
+					outs[1].Amount = 1<<63 + 1 + w.rng.UpTo(1000)
 				}
 				t.Data = &transaction.Transfer{Outputs: outs}
 			}
